@@ -223,3 +223,40 @@ VARIANTS["C04"] = [
         "        if self.check_completed and self.delete_original:\n            _logger.info(f\"Removing original file in folder {self.ap_file}\")\n            self.sr.close()\n            self.ap_file.unlink()\n",
         "        if not self.delete_original:\n            return\n        if self.check_completed:\n            _logger.info(f\"Removing original file in folder {self.ap_file}\")\n            self.sr.close()\n            self.ap_file.unlink()\n")], (), ""),
 ]
+
+# ------------------------------------------------------------------------------------------------ C17
+VARIANTS["C17"] = [
+    V("stride-nswin", "fire", UT, [("            first += self.nswin - self.overlap\n", "            first += self.nswin\n")], ("D1",), "windows no longer overlap"),
+    V("stride-half-overlap", "fire", UT, [("            first += self.nswin - self.overlap\n", "            first += self.nswin - self.overlap // 2\n")], ("D1",), ""),
+    V("min-dropped", "fire", UT, [("            last = min(last, self.ns)\n", "")], ("D1",), "last window overruns; loop never ends"),
+    V("break-before-yield", "fire", UT, [(
+        "            yield (first, last)\n            if last == self.ns:\n                break\n", "            if last == self.ns:\n                break\n            yield (first, last)\n")],
+      ("D1",), "last window dropped"),
+    V("iw-before-break", "fire", UT, [(
+        "            yield (first, last)\n            if last == self.ns:\n                break\n            first += self.nswin - self.overlap\n            self.iw += 1\n",
+        "            self.iw += 1\n            yield (first, last)\n            if last == self.ns:\n                break\n            first += self.nswin - self.overlap\n")], ("D1",),
+      "iw is 1-based: NP2 converter never sees iw == 0"),
+    V("valid-quarter", "fire", UT, [("            first_valid = 0 if first == 0 else first + self.overlap // 2\n", "            first_valid = 0 if first == 0 else first + self.overlap // 4\n")],
+      ("D2",), "duplicated samples at seams"),
+    V("valid-assert-removed", "fire", UT, [("        assert self.overlap % 2 == 0, \"Overlap must be even\"\n", "")], ("D2",), "odd overlap loses one sample per seam"),
+    V("valid-last-edge", "fire", UT, [("            last_valid = last if last == self.ns else last - self.overlap // 2\n", "            last_valid = last - self.overlap // 2\n")], ("D2",),
+      "tail of the signal never valid"),
+    V("nwin-unclamped", "fire", UT, [(
+        "        self.nwin = max(int(np.ceil(float(ns - nswin) / float(nswin - overlap))), 0) + 1\n", "        self.nwin = int(np.ceil(float(ns - nswin) / float(nswin - overlap))) + 1\n")],
+      ("D3",), "regression of the F11a repair"),
+    V("nwin-wrong-stride", "fire", UT, [("float(ns - nswin) / float(nswin - overlap)", "float(ns - nswin) / float(nswin)")], ("D3",), ""),
+    V("nwin-floor", "fire", UT, [("max(int(np.ceil(float(ns - nswin) / float(nswin - overlap))), 0) + 1", "max(int(np.floor(float(ns - nswin) / float(nswin - overlap))), 0) + 1")], ("D3",), ""),
+    V("splice-neg-bound", "fire", UT, [(
+        "            if last < self.ns:\n                amp[last - first - self.overlap:] = np.flipud(w)\n", "            if last < self.ns:\n                amp[-self.overlap:] = np.flipud(w)\n")],
+      ("D4",), "regression of the F11b repair: overlap 0 addresses the whole window"),
+    V("splice-unconditional-tail", "fire", UT, [(
+        "            if last < self.ns:\n                amp[last - first - self.overlap:] = np.flipud(w)\n", "            amp[last - first - self.overlap:] = 1 if last == self.ns else np.flipud(w)\n")],
+      ("D4",), "regression of F11c: head ramp of a short last window overwritten"),
+    V("splice-tail-not-flipped", "fire", UT, [("amp[last - first - self.overlap:] = np.flipud(w)", "amp[last - first - self.overlap:] = w")], ("D4",), ""),
+    V("tscale-first", "fire", UT, [("[(first + (last - first - 1) / 2) / fs for first, last in self.firstlast]", "[(first + (last - first) / 2) / fs for first, last in self.firstlast]")], ("D5",), ""),
+    V("twin-stride-var", "twin", UT, [("            first += self.nswin - self.overlap\n", "            step = self.nswin - self.overlap\n            first = first + step\n")], (), ""),
+    V("twin-valid-if-stmt", "twin", UT, [(
+        "            first_valid = 0 if first == 0 else first + self.overlap // 2\n", "            half = self.overlap // 2\n            first_valid = 0 if first == 0 else first + half\n")], (), ""),
+    V("twin-tscale-form", "twin", UT, [("[(first + (last - first - 1) / 2) / fs for first, last in self.firstlast]", "[(first + last - 1) / 2 / fs for first, last in self.firstlast]")], (), ""),
+    V("twin-nwin-npmax", "twin", UT, [("max(int(np.ceil(float(ns - nswin) / float(nswin - overlap))), 0) + 1", "1 + max(0, int(np.ceil((ns - nswin) / (nswin - overlap))))")], (), ""),
+]
